@@ -704,6 +704,11 @@ class SymReal:
             else:
                 raise Unsupported("symbolic exponent")
         kf = _to_fraction(k)
+        if kf.denominator > 64:
+            # float exponents such as 1.0/5.0 or 0.55/5: snap to the nearby small rational (the float pow is itself rounded)
+            kf2 = kf.limit_denominator(2000)
+            if abs(kf2 - kf) < Fraction(1, 10**12):
+                kf = kf2
         if kf.denominator == 1:
             n = int(kf)
             if n >= 0:
